@@ -466,6 +466,10 @@ pub struct SimRing {
     /// (Linux: 20; a smaller bound is the adversarial choice).
     pub defer_batch: Option<u32>,
     pub deferred: VecDeque<(Option<u64>, Cqe)>,
+    /// A signal is pending for the thread that waits next: the next `io_uring_enter(GETEVENTS)`
+    /// whose wait cannot be satisfied returns EINTR (after consuming the submissions), whatever
+    /// its timeout.
+    pub intr_next_wait: bool,
 }
 
 unsafe impl Send for SimRing {}
@@ -1250,6 +1254,7 @@ fn sim_setup(entries: u32, p: *mut Params) -> i64 {
             None
         },
         sqpoll_eager: SQPOLL_EAGER.load(Ordering::SeqCst),
+        intr_next_wait: false,
         defer_batch: None,
         deferred: VecDeque::new(),
     };
@@ -1590,7 +1595,26 @@ impl SimRing {
                 });
             }
             _ => {
-                let regions = regions_of(&sqe);
+                let mut regions = regions_of(&sqe);
+                // A buffer-select request hands the kernel the buffer ring of its group and the
+                // buffers offered there: they too must stay what they are until the final completion.
+                if sqe.flags & IOSQE_BUFFER_SELECT != 0 {
+                    if let Some(p) = self.pbufs.get(&sqe.buf_index) {
+                        regions.push(region("pool-ring", p.ring_addr as u64, p.entries as usize * 16));
+                        let mut seen: Vec<u64> = Vec::new();
+                        for (_, addr, len) in self.available_buffers(sqe.buf_index) {
+                            let r = region("pool-buffer", addr, len as usize);
+                            match r.block {
+                                Some(b) if seen.contains(&b) => {}
+                                Some(b) => {
+                                    seen.push(b);
+                                    regions.push(r);
+                                }
+                                None => regions.push(r),
+                            }
+                        }
+                    }
+                }
                 // Oracle C01: a submission must not reference memory that has
                 // already been freed (the tracking allocator keeps freed watched
                 // blocks in quarantine, so this is detectable).
@@ -2108,7 +2132,10 @@ fn sim_enter(fd: i32, to_submit: u32, min_complete: u32, flags: u32, arg: usize)
                 ring.flush_overflow();
                 ring.run_deferred(events);
                 let want = min_complete.min(ring.cq_entries);
-                if ring.cq_count() < want && wake_targets.iter().all(|w| w.1 != fd) {
+                if ring.cq_count() < want && wake_targets.iter().all(|w| w.1 != fd) && ring.intr_next_wait {
+                    ring.intr_next_wait = false;
+                    wait = -(libc::EINTR as i64);
+                } else if ring.cq_count() < want && wake_targets.iter().all(|w| w.1 != fd) {
                     wait = match (script.wait_errno, timeout) {
                         (Some(e), _) => -(e as i64),
                         (None, Some(_)) => -(libc::ETIME as i64),
